@@ -6,8 +6,8 @@ J1  TLC, module LikPool: every interleaving of Start / Finish over K <= 3 (thoro
     thorough also checks that the same model with FillBy = "position" (the realistic mistake)
     *does* violate FinalCache, i.e. the invariant is not vacuous.
     TLC, module Relational (Hist machine): call histories BuildPrior ; Date(m1, s1) ; ... of
-    length <= 3 (thorough 4) over one prior object: the object's space follows the last call,
-    conversions are counted, every result is the fresh-prior result.
+    length <= 3 (thorough 4) over one prior object, as implemented (in-place conversion): the
+    object's space follows the last call, conversions are counted, every result is the fresh-prior result.
 J2  TLC emits every complete pool schedule (K, W, arrival order) and every call history.
     Schedules are replayed into the real multiprocessing pool (tiny inputs with exactly K cache
     keys, per-key delays in the forked workers steer the arrival order); histories are replayed
@@ -18,7 +18,8 @@ J3  LikPoolTrace validates every *observed* arrival order (guarded hook _verif_a
     mutation metadata bytes and mutation nodes: same call twice in one process ("repeat"), the same
     call in fresh interpreters with different PYTHONHASHSEED ("fresh"), num_threads in
     {None, 1, 2, 4} for the discrete methods ("threads"); and every history step ("reuse":
-    space before / after, prior content close9, result close9 to the fresh-prior result).
+    result close9 to the fresh-prior result; the object's space after the call is Force's or untouched --
+    the statement is silent about the object -- and how often it matches the in-place model is counted).
     Provenance (timestamps, resources) is never compared.
 """
 
@@ -220,6 +221,11 @@ def replay_history(ctx, inp, hid, calls, fresh, events, metas):
         meta["spec"] = {"before": c["before"], "after": c["after"], "converted": c["converted"]}
         events.append(ev)
         metas[tid] = meta
+        ctx.count("reuse_steps")
+        if ev["space_after"] == c["after"] and before == c["before"]:
+            ctx.count("reuse_steps_matching_in_place_model")
+        if ev["data_close"]:
+            ctx.count("reuse_steps_prior_linear_content_kept_close9")
         if c["converted"]:
             ctx.nontriv(tid)
 
@@ -256,29 +262,36 @@ def run(ctx):
     orders = set()
 
     import tsdate  # noqa: F401  (pay the import before the children compete for the cores)
+    mc.lap("import")
     procs, jobs, labels, first = determinism(ctx, det_corpus, events, metas, intern,
                                              hashseeds=(1, 2, 3) if q else (1, 2, 3, 4, 5, 6))
 
+    mc.lap("repeat")
     # TLC while the children run
     r = mc.likpool_model(ctx, max_keys=3 if q else 4)
     scheds = r.rec("sched")
     ctx.extra["likpool_schedules_in_model"] = len(scheds)
     if not q:
         bad = mc.likpool_model(ctx, max_keys=3, fill="position", emit=False, must_hold=False, name="likpool_mut")
-        if bad.violated != "FinalCache":
-            raise MachineryError(f"LikPool with FillBy = position should violate FinalCache, got {bad.violated}")
+        if bad.violated not in ("FinalCache", "NeverWrongRow"):
+            raise MachineryError(f"LikPool with FillBy = position should violate FinalCache or NeverWrongRow, got {bad.violated}")
         ctx.extra["likpool_position_variant_violates"] = bad.violated
     hists = mc.hist_model(ctx, 3 if q else 4)
 
+    mc.lap("tlc models")
     threads(ctx, [i for i in corpus if "historical" not in i.tags][: (2 if q else 6)], events, metas,
             pool_events, pool_meta, intern, rowintern, orders)
+    mc.lap("threads")
     tiny = mc.tiny_inputs_with_keys(ctx.seed, set(s["K"] for s in scheds))
     replay_schedules(ctx, scheds, tiny, pool_events, pool_meta, rowintern, orders)
+    mc.lap("schedules")
     contemp = [i for i in corpus if "historical" not in i.tags]
     prior_reuse(ctx, hists, contemp[:1] if q else contemp[:3], events, metas)
 
+    mc.lap("reuse")
     collect_fresh(ctx, procs, jobs, labels, first, events, metas, intern)
 
+    mc.lap("children")
     rej = mc.validate_pool(ctx, pool_events)
     for tid, clause in rej.items():
         ev = next(e for e in pool_events if e["tid"] == tid)
@@ -287,6 +300,7 @@ def run(ctx):
     ctx.extra["pool_runs_validated"] = len(pool_events)
     ctx.extra["distinct_observed_arrival_orders"] = len(orders)
     mc.judge(ctx, PID, events, metas, ["repeat", "fresh", "threads", "reuse"], "determinism")
+    mc.lap("trace validation")
     for e in events[:3] + [e for e in events if e["kind"] == "reuse"][:2]:
         ctx.sample({k: e[k] for k in ("tid", "kind", "method", "ida", "idb", "space_before", "space_after")})
 
